@@ -83,6 +83,7 @@ var gens = []generator{
 	{file: "FastaWrite.lean", src: "seqio/fasta.go (Fasta.WriteTo, FastaWriter.WriteSeq)", run: genFastaWrite},
 	{file: "GbFields.lean", src: "seqio/genbank.go (GenBankFields.ID, GenBankFields.String)", run: genGbFields},
 	{file: "GenBankWrite.lean", src: "seqio/genbank.go (GenBank.String)", run: genGenBankWrite},
+	{file: "GbSlice.lean", src: "seqio/genbank.go (GenBankFields.Slice)", run: genGbSlice},
 }
 
 func writeIfChanged(path string, content []byte) (bool, error) {
